@@ -53,6 +53,15 @@ func setupC10(x *Ctx) {
 			plans[n] = append(plans[n], hubOp{n, "shutdown", "", []int{0, 500, 5000}[x.Choose("gap", 3)]})
 		}
 	}
+	if x.Feat(FeatPairingTies) && x.Chance("pairing-tie", 0.3) {
+		// A dials B and waits for B's user; B's approval (hello "ready") reaches A at the
+		// very instant A's user withdraws the pairing again
+		g := []int{600, 1500, 4000}[x.Choose("tie-gap", 3)]
+		withdraw := []string{"unregister", "cancel", "unregister"}[x.Choose("tie-withdraw", 3)]
+		plans["A"] = append([]hubOp{{"A", "register", "B", 0}, {"A", withdraw, "B", g + int(lat/time.Millisecond)}}, plans["A"]...)
+		plans["B"] = append([]hubOp{{"B", "register", "A", g}}, plans["B"]...)
+		x.Probe("pairing-tie")
+	}
 	x.SigAdd(fmt.Sprintf("n=%d lat=%v", nNodes, lat))
 	for _, n := range names {
 		for _, op := range plans[n] {
